@@ -236,9 +236,24 @@ func (c *Check) writeUpdateContract(rule string) {
 			ok := !e.IsNil() && e.Op == "ld" && e.Args[0].Op == "global"
 			c.require(ok, rule, "updateMessageWriter.WriteUpdate", "error after session end", p.InstrPos(r.Instr), "when the writer is closed WriteUpdate returns a package-level error value and writes nothing; got "+trunc(e.Key, 60))
 		} else {
-			// the result is the Write error
+			// the result is the Write error (or nil where that error is known to be nil)
 			e := r.Results[0]
 			ok := e.Op == "ex" && e.Args[0].Op == "rcall" && e.Args[0].S == "invoke:net.Conn.Write"
+			if !ok && e.IsNil() {
+				for _, w := range p.callsIn(fn, descIs("invoke:net.Conn.Write")) {
+					wv, isV := w.(ssa.Value)
+					if !isV {
+						continue
+					}
+					for _, rf := range *wv.Referrers() {
+						if ex, isE := rf.(*ssa.Extract); isE && ex.Index == 1 {
+							if v, isC := st.nonNil(a.ExprAt(st, ex)).IsConst(); isC && v == 0 {
+								ok = true
+							}
+						}
+					}
+				}
+			}
 			c.require(ok, rule, "updateMessageWriter.WriteUpdate", "returns the Write error", p.InstrPos(r.Instr), "nil is returned only when conn.Write returned nil")
 		}
 	}
